@@ -44,6 +44,54 @@ JudgeLinear(seq, e) ==
        IF Len(e.rows) # Len(grps) THEN "composition-rows"
        ELSE IF \A g \in 1..Len(grps) : RowOK(e.rows[g], GroupProfile(seq, e.w, grps[g])) THEN OK ELSE "profile-composition"
 
+\* ---- C12 / C11 ----
+FxOK(v) == v.s \in {-1, 0, 1}
+SameClasses(rs, seq, size) == \A i, j \in 1..Len(seq) : (rs[i] = rs[j]) <=> (GroupOf(size, seq[i]) = GroupOf(size, seq[j]))
+JudgeAlphabet(seq, e) ==
+  CASE e.q = "alphabetsize" -> IF (e.size \in AlphabetSizes) = ~e.exc THEN OK ELSE "alphabet-size-acceptance"
+    [] e.q = "alphabetmap" ->
+         IF ~(\A r \in Residues : r \in DOMAIN e.map /\ e.map[r] \in Residues) THEN "alphabet-map-not-residues"
+         ELSE IF ~ImplementsPartition([r \in Residues |-> e.map[r]], e.size) THEN "alphabet-partition"
+         ELSE IF SetOf(e.alphabet) # {e.map[r] : r \in Residues} \/ Len(e.alphabet) # e.size THEN "alphabet-representatives"
+         ELSE OK
+    [] e.q = "reduce" ->
+         IF e.exc THEN "reduce-raised"
+         ELSE IF Len(e.rs) # Len(seq) THEN "reduce-length"
+         ELSE IF ~(\A i \in 1..Len(seq) : e.rs[i] \in GroupOf(e.size, seq[i])) THEN "reduce-not-own-group"
+         ELSE IF ~SameClasses(e.rs, seq, e.size) THEN "reduce-partition" ELSE OK
+    [] e.q = "userreduce" ->
+         LET valid == e.isdict /\ UserAlphabetValid(e.ua) IN
+         IF ~valid THEN (IF e.exc THEN OK ELSE "user-alphabet-accepted-though-invalid")
+         ELSE IF e.exc THEN "user-alphabet-rejected-though-valid"
+         ELSE IF e.rs # Reduce(e.ua, seq) THEN "user-alphabet-not-applied-residue-by-residue"
+         ELSE IF SetOf(e.alphabet) # {e.ua[r] : r \in Residues} THEN "user-alphabet-representatives" ELSE OK
+
+EntRow(k, W) == (CHOOSE tt \in SetOf(Input.ent) : tt.k = k /\ tt.w = W).h
+RECURSIVE WFSum(_,_,_,_)
+WFSum(win, letters, k, acc) ==
+  IF letters = {} THEN acc
+  ELSE LET a == CHOOSE x \in letters : TRUE
+           cnt == Cardinality({i \in 1..Len(win) : win[i] = a}) IN
+       WFSum(win, letters \ {a}, k, RAdd(acc, RMk(1, EntRow(k, Len(win))[cnt + 1], D15)))
+JudgeComplexity(seq, e) ==
+  LET N == Len(seq) IN
+  IF ~e.knowntype \/ e.w > N THEN (IF e.exc THEN OK ELSE "complexity-should-reject")
+  ELSE IF e.exc THEN "complexity-raised"
+  ELSE LET K == NumWindows(N, e.w, e.s)
+           m == IF e.size = 0 THEN e.ua ELSE CanonMap(e.size)
+           red == Reduce(m, seq)
+           letters == {m[r] : r \in Residues}
+           k == Cardinality(letters)
+           win(j) == SubSeq(red, WindowStart(j, e.s), WindowStart(j, e.s) + e.w - 1)
+           OnePlus == RAdd(ROne, Eps9)
+       IN IF Len(e.rv) # K \/ Len(e.pos) # K \/ Len(e.iso) # K THEN "complexity-window-count"
+          ELSE IF ~PosRowOK(e.pos, N, K) THEN "complexity-positions"
+          ELSE IF ~(\A j \in 1..K : FxOK(e.rv[j]) /\ FxOK(e.iso[j])) THEN "complexity-not-finite"
+          ELSE IF \E j \in 1..K : ~(RLe(RNeg(Eps9), RFromFx(e.rv[j])) /\ RLe(RFromFx(e.rv[j]), OnePlus)) THEN "complexity-range"
+          ELSE IF \E j \in 1..K : ~RClose(RFromFx(e.rv[j]), RFromFx(e.iso[j])) THEN "complexity-locality"
+          ELSE IF e.type = "WF" /\ k >= 2 /\ \E j \in 1..K : ~RClose(RFromFx(e.rv[j]), WFSum(win(j), letters, k, RZero)) THEN "wf-entropy"
+          ELSE OK
+
 Judge(seq, e) ==
   LET x == ChargePattern(seq)
       r == RFromFx(e.r)
@@ -62,6 +110,8 @@ Judge(seq, e) ==
        [] e.q = "kappax" -> KappaJudge(r, KappaXPattern(seq, SetOf(e.g1), SetOf(e.g2)))
        [] e.q = "omegaseq" -> IF e.rs = OmegaString(seq) THEN OK ELSE "omega-sequence"
        [] e.q \in {"linear", "lincomp"} -> JudgeLinear(seq, e)
+       [] e.q \in {"alphabetsize", "alphabetmap", "reduce", "userreduce"} -> JudgeAlphabet(seq, e)
+       [] e.q = "complexity" -> JudgeComplexity(seq, e)
        [] e.q = "param"  -> IF e.name \notin ScalarParams THEN "machinery:unknown-param"
                             ELSE IF RClose(r, Param(e.name, seq)) THEN OK ELSE "param-" \o e.name
        [] e.q = "aafrac" -> IF RClose(r, AAFraction(seq, e.aa)) THEN OK ELSE "amino-acid-fraction"
